@@ -1314,6 +1314,15 @@ class Interp:
                     return ElemRef(c, key)
                 if name == "count":
                     return 1 if V(0) in c else 0
+                if name == "operator=":
+                    v = V(0)
+                    if isinstance(v, dict):
+                        new = copy.deepcopy(v)
+                        c.clear()
+                        c.update(new)
+                        return obj
+                if name in ("size", "empty"):
+                    return len(c) if name == "size" else len(c) == 0
                 if name == "insert":
                     kv = V(0)
                     if isinstance(kv, (tuple, list)) and len(kv) == 2:
